@@ -48,7 +48,7 @@ CHECKS = {
    note='"unweighted posterior" = posterior() with defaults. ' + A_NOTE),
  'C12': dict(engine='smc', level='model_checking', ref='3/C12',
    tech='explicit-state model checking with toggles of discard_exploration at batch boundaries x resumes; freeze/append-only transition relation, view exactness via a history variable, toggle involution, three-ways product run',
-   text='Histories over {slice, resume, toggle} with up to 2 (quick) / 3 (thorough) toggles; after exploration bounds are structurally frozen, shells non-empty, arrays append-only; with discard on the view is exactly the points evaluated after exploration ended (tracked as a history variable); toggle;toggle is the identity; discard requested via run(), setter, or setter after resume agree at every later batch.',
+   text='Histories over {slice, resume, toggle} with up to 2 (quick) / 3 (thorough) toggles; after exploration bounds are structurally frozen, shells non-empty, arrays append-only; with discard on the view is exactly the points evaluated after exploration ended (tracked as a history variable); toggle;toggle is the identity; after every toggle the statistics of the new view (on or off) equal the ones recomputed from points/log_l/bounds; scenarios include ones whose seed is chosen so that one / two empty shells are removed at the end of exploration; discard requested via run(), setter, or setter after resume agree at every later batch.',
    note='A toggle after the last checkpoint is not persisted (resume is compared with the last checkpoint). ' + A_NOTE),
  'C13': dict(engine='boundmc', level='model_checking', ref='3/C13',
    tech='BFS over all split/trim sequences of real Union objects with scripted GMM seeds and structural state hashing, to closure where the graph closes; reference model of per-ellipsoid records',
